@@ -29,6 +29,7 @@ type vDriver struct {
 	sendErr    error
 	recvErr    error
 	concurrent int // number of calls in flight (for the no-overlap check of the serial contract)
+	lastRecvEnd int64 // virtual time at which the latest ReceiveProbe call returned
 }
 
 var errVSend = errors.New("model send failure")
@@ -50,9 +51,15 @@ func (d *vDriver) SendProbe(ttl uint8) error {
 
 func (d *vDriver) ReceiveProbe(timeout time.Duration) (*ProbeResponse, error) {
 	V.Yield()
+	defer func() { d.lastRecvEnd = V.NowNs() }()
 	d.recvCalls++
 	d.recvStart = append(d.recvStart, V.NowNs())
 	if d.recvFailAt != 0 && d.recvCalls == d.recvFailAt {
+		// the failing read reports its error at once, mid-interval, or only when the poll interval is over
+		// (so it may come back after the run's deadline has passed)
+		w := V.U8("failAfter")
+		V.Assume(w <= 2)
+		V.Sleep([]time.Duration{0, timeout / 2, timeout}[V.Concretize(int(w))])
 		return nil, errVRecv
 	}
 	if d.maxRecv != 0 && d.recvCalls > d.maxRecv {
@@ -173,9 +180,17 @@ func Verif_Engine_parallel() {
 		}
 	}
 	// ---- C08: bounded termination ----
-	bound := int64(p.MaxTimeout()) + int64(p.PollFrequency)
+	// the bound is computed from the parameters (listening timeout + one send delay per probe + one poll
+	// interval), not through the code's own MaxTimeout()
+	window := int64(p.TracerouteTimeout) + int64(p.SendDelay)*(int64(max)-int64(min)+1)
+	bound := window + int64(p.PollFrequency)
 	V.Assert(end-start <= bound, "C08/returns-within-maxtimeout-plus-one-poll")
-	deadline := start + int64(p.MaxTimeout())
+	V.Assert(int64(p.MaxTimeout()) == window, "C08/maxtimeout-is-timeout-plus-delay-per-probe")
+	deadline := start + window
+	// C07: every reply that arrives before the deadline must be read — the receiver keeps polling until the
+	// deadline unless no further reply could change the result (the first hop already is the destination)
+	V.Assert(d.lastRecvEnd >= deadline || (len(res) == 1 && res[0] != nil && res[0].IsDest),
+		"C07/receiver-listens-until-the-deadline-while-a-reply-could-change-the-result")
 	for _, t := range d.recvStart {
 		V.Assert(t < deadline, "C08/no-receive-starts-at-or-after-the-deadline")
 	}
